@@ -176,3 +176,26 @@ def to_py(x):
     if isinstance(x, (tuple, list)):
         return [to_py(e) for e in x]
     return x
+
+
+def scribble(x):
+    """Overwrite a *result* in place (writable numpy arrays, ragged arrays, nested tuples/lists of them) so that a buffer it
+    wrongly shares with the object it was computed from shows up when that object is observed again.  Returns the number of
+    arrays overwritten.  Only used on results that the API documents / numpy semantics define as fresh arrays."""
+    lib = CTX.lib
+    n = 0
+    if isinstance(x, (tuple, list)):
+        return sum(scribble(e) for e in x)
+    if lib is not None and isinstance(x, lib.RaggedArray):
+        x = x.ravel()
+    if isinstance(x, np.ndarray) and x.size and x.flags.writeable:
+        try:
+            if x.dtype.kind == "b":
+                np.logical_not(x, out=x)
+            elif x.dtype.kind in "iuf":
+                np.add(x, x.dtype.type(3), out=x, casting="unsafe")
+                x[...] = x[::-1].copy() if x.ndim == 1 else x
+            n = 1
+        except Exception:
+            n = 0
+    return n
